@@ -5,7 +5,7 @@
 package cache
 
 // Every function under contract in this package also serves the properties that depend on the whole package.
-//@ package-props C01 C02 C03 C04 C05 C08 C14 C15
+//@ package-props C01 C02 C03 C04 C05 C08 C14 C15 C12
 
 // The clock is a package variable holding a function. nowval is "the clock
 // reading during this call" (one arbitrary instant per call).
@@ -507,6 +507,8 @@ package cache
 //@   requires c != nil && Globals() && len(owed) == 0 && StoredExist() && err != nil
 //@   modifies ghost tstore, ghost treal, ghost intAdded, ghost boolSets, ghost lastBool, ghost strSets, ghost lastStr, ghost latSamples, ghost lastSampleTs, ghost lastSynced, ghost owed, ghost tsSeen, ghost updSteps, ghost delSteps, ghost wiped, ghost resetDone, heap(ctree.Tree.leafBranch), heap(Target.sync), heap(Target.ts), heap(pb.Notification.Update), heap(pb.Notification.Delete)
 //@   assert at call (*Target).connectError#0: [addressed-target-only C14] arg0 == c.targets[name] && arg0 != nil
+//@   ensures [nothing-recorded-unless-the-named-target-exists C14] hits("call (*Target).connectError#0") == old(hits("call (*Target).connectError#0")) ==> tstore == old(tstore) && wiped == old(wiped) && resetDone == old(resetDone)
+//@   ensures [no-target-is-registered-by-a-session-event C14] hits("call (*Cache).GetTarget#0") == old(hits("call (*Cache).GetTarget#0")) + 1
 
 // SetClient installs the feed callback in the cache and in every target, under the lock.
 //@ func (*Cache).SetClient
